@@ -5,6 +5,12 @@ import os
 
 V = os.path.dirname(os.path.dirname(os.path.abspath(__file__)))
 CHECKS = {
+    'C10': ('four monitors on one stress workload (2-16 application threads x all thread-safe entry points x continuous uplink traffic x auto-flush, lock-level perturbation; tsan/asan/mon flavours): ThreadSanitizer reports in library code, contract monitor at every documented-lock accessor, history oracles (getter results equal a state that existed during the call, entity invariants, each queued message returned exactly once) and a lost-update oracle for read-modify-write commands with one writer per function',
+            'TSan suppresses only the four volatile lifecycle flags; glib uninstrumented (covered by contract monitor only); schedules are sampled',
+            'runtime monitoring: ThreadSanitizer + lock-contract monitor + linearizability-style history oracles under stress'),
+    'C11': ('link-time lock monitor over a systematic cross product (every public function x argument class x mode, all 256 uplink types on the receiver thread, every rejected-configuration class, sys_reset) and concurrent stress: held-set empty at every return and whenever the receiver is back at the read callback; union lock-order graph observed while running must be acyclic; self-wait / wait-for cycle detection with watchdog',
+            'acyclicity of the observed order only; reader-preferring rwlocks (recursive read acquisition is not an edge); allocation-failure paths not driven',
+            'runtime monitoring: lock-order graph, held-set balance and wait-for-cycle monitors over systematic + stress workloads'),
     'C12': ('hostile uplink streams from four generators (noise, corrupted valid traffic, grammar-generated CRC-valid packets with adversarial length/address/type/field values, delimiter-less runs of 255-4096 bytes) in debug and normal mode against generated configurations; zero ASan/UBSan reports, normal exit, and after every stream a probe packet must be delivered; batches per process with re-run of the tail after a crash',
             'gcc ASan (512 B red zones) + UBSan bounds-strict; probe preceded by a resync delimiter; uninitialised reads not part of the statement',
             'runtime monitoring: ASan/UBSan + liveness probe oracle over generated hostile byte streams'),
